@@ -147,6 +147,8 @@ func nodeText(sb *strings.Builder, n *Node) {
 	case nIf:
 		fmt.Fprintf(sb, "Q %d ", n.K)
 		listText(sb, n.Body)
+	case nEdit:
+		fmt.Fprintf(sb, "ED %d %d ", n.K, n.V)
 	case nNative:
 		switch n.Nat.Kind {
 		case natTransfer:
@@ -353,6 +355,8 @@ func (w *world) encNode(n *Node, self int) any {
 		return []any{int64(nLocal), w.encList(n.Body, self)}
 	case nIf:
 		return []any{int64(nIf), keyBytes(n.K), w.encList(n.Body, self)}
+	case nEdit:
+		return []any{int64(nEdit), keyBytes(n.K), int64(n.V)}
 	case nNative:
 		h, m, args := w.nativeArgs(n, w.hashes[self], self)
 		if k, ok := w.natTok[tokKey(h, m, len(args))]; ok && n.Tok && n.Fl == 15 {
@@ -451,7 +455,7 @@ func (c *compiler) node(n *Node) {
 		c.funcs = append(c.funcs, n.Body)
 		c.fname = append(c.fname, name)
 		a.jmp(opcode.CALLL, name)
-	case nIf:
+	case nIf, nEdit: // (the entry script has no storage of its own: the read faults)
 		le := c.fresh("q")
 		a.bytes(keyBytes(n.K))
 		a.syscall(interopnames.SystemStorageGetContext)
